@@ -49,7 +49,8 @@ class Interp(object):
                 if e.id in self._mod_cache:
                     return self._mod_cache[e.id]
                 v = self.module.module_assign(e.id)
-                if isinstance(v, (ast.Dict, ast.Tuple, ast.List, ast.Constant)):
+                if isinstance(v, (ast.Dict, ast.Tuple, ast.List, ast.Constant)) or (
+                        isinstance(v, ast.Call) and pyfront.call_name(v) in ("tuple", "list", "frozenset") and len(v.args) == 1):
                     self._mod_cache[e.id] = ("sym", e.id)
                     try:
                         val = self.ev(v)
@@ -76,6 +77,21 @@ class Interp(object):
             return not self.truth(self.ev(e.operand))
         if isinstance(e, ast.Compare) and len(e.ops) == 1:
             a, b = self.ev(e.left), self.ev(e.comparators[0])
+            for v_, o_ in ((a, b), (b, a)):
+                # an unresolved value is a ("sym", text) marker - itself a tuple: comparing with it would silently give an answer
+                if isinstance(v_, tuple) and len(v_) == 2 and v_[0] == "sym":
+                    if o_ is None and isinstance(e.ops[0], (ast.Is, ast.IsNot)) and self.module is not None and isinstance(v_[1], str) \
+                            and v_[1].isidentifier():
+                        # a module-level name bound once to something that is not the constant None
+                        mv = self.module.module_assign(v_[1])
+                        if mv is not None and not (isinstance(mv, ast.Constant) and mv.value is None):
+                            return isinstance(e.ops[0], ast.IsNot)
+                        # ... or imported from a sibling module, where (by the package's convention, checked by the rules that
+                        # consume the names) it is a compiled regular expression or a function
+                        if mv is None and any(isinstance(st_, (ast.ImportFrom, ast.Import)) and any((a_.asname or a_.name) == v_[1] for a_ in st_.names)
+                                              for st_ in self.module.tree.body):
+                            return isinstance(e.ops[0], ast.IsNot)
+                    raise AnalysisError("decision table: comparison `%s` with the unresolved value `%s`" % (ast.unparse(e), v_[1]))
             if isinstance(e.ops[0], ast.Is):
                 return a is b
             if isinstance(e.ops[0], ast.IsNot):
@@ -128,6 +144,14 @@ class Interp(object):
                     k = tuple(k) if isinstance(k, list) else k
                     if not (isinstance(k, tuple) and k and k[0] == "sym"):
                         return base.get(k, self.ev(e.args[1]) if len(e.args) == 2 else None)
+            if d in ("tuple", "list") and len(e.args) == 1 and not e.keywords:
+                v = self.ev(e.args[0])
+                if isinstance(v, list):
+                    return list(v)
+            if isinstance(e.func, ast.Attribute) and e.func.attr in ("values", "keys") and not e.args and not e.keywords:
+                base = self.ev(e.func.value)
+                if isinstance(base, dict):
+                    return list(base.values()) if e.func.attr == "values" else list(base.keys())
             if d in ("bool", "int", "str") and len(e.args) == 1:
                 v = self.ev(e.args[0])
                 if not (isinstance(v, tuple) and v and v[0] in ("sym", "obj")):
@@ -135,6 +159,26 @@ class Interp(object):
             for a in list(e.args) + [k.value for k in e.keywords]:
                 self._scan_calls(a)
             return ("sym", ast.unparse(e))
+        if isinstance(e, (ast.ListComp, ast.GeneratorExp)) and len(e.generators) == 1 and isinstance(e.generators[0].target, ast.Name) \
+                and not e.generators[0].is_async:
+            # [elt for v in <finite list> if <tests>] with the variable bound in turn
+            items = self.ev(e.generators[0].iter)
+            if not isinstance(items, list):
+                raise AnalysisError("decision table: comprehension over `%s`" % ast.unparse(e.generators[0].iter))
+            v_ = e.generators[0].target.id
+            had, old_ = v_ in self.env, self.env.get(v_)
+            out = []
+            try:
+                for it_ in items:
+                    self.env[v_] = it_
+                    if all(self.truth(self.ev(t_)) for t_ in e.generators[0].ifs):
+                        out.append(self.ev(e.elt))
+            finally:
+                if had:
+                    self.env[v_] = old_
+                else:
+                    self.env.pop(v_, None)
+            return out
         if isinstance(e, ast.List) and not e.elts:
             return []
         if isinstance(e, (ast.Tuple, ast.List)):
